@@ -401,3 +401,24 @@ Proof.
   destruct (beq (digit c) (digit 7)) eqn:E3; [|reflexivity]. apply beq_eq, digit_inj in E3; [|lia|lia].
   lia.
 Qed.
+
+(* the 307 lines of a rendered reply *)
+Lemma line_nodes_render l : wf_line l -> zlen (render_line l) + 2 < CP_LINEMAX -> (rl_code l = 307 -> wf_name (rl_text l)) ->
+  line_nodes (cstr (render_line l ++ CP_EOL)) = if rl_code l =? 307 then [rl_text l] else [].
+Proof.
+  intros W L N. rewrite (cstr_render l W). unfold line_nodes, line_node.
+  replace (zlen (render_line l ++ CP_EOL) <? CP_LINEMAX) with true.
+  2:{ symmetry. apply Z.ltb_lt. rewrite zlen_app. change (zlen CP_EOL) with 2. lia. }
+  destruct (rl_code l =? 307) eqn:E.
+  - apply Z.eqb_eq in E. specialize (N E). unfold render_line. rewrite E.
+    change (dec3 307 ++ SP :: rl_text l) with (node_line (rl_text l)). rewrite sscanf_node_line by exact N. reflexivity.
+  - apply Z.eqb_neq in E. unfold render_line. rewrite <- app_assoc. rewrite sscanf_other_line by (try apply W; auto). reflexivity.
+Qed.
+
+Lemma nodes_reply ls : Forall (fun l => wf_line l /\ zlen (render_line l) + 2 < CP_LINEMAX /\ (rl_code l = 307 -> wf_name (rl_text l))) ls ->
+  node_iter (rev (map (fun l => cstr (l ++ CP_EOL)) (map render_line ls))) = Ok (spec_nodes ls).
+Proof.
+  intros H. rewrite node_iter_rev. f_equal. unfold spec_nodes. induction ls as [|l ls IH]; cbn [map flat_map filter]; [reflexivity|].
+  inversion H as [|? ? (W & L & N) H2]; subst. rewrite (line_nodes_render l W L N), IH by auto.
+  destruct (rl_code l =? 307); reflexivity.
+Qed.
